@@ -435,5 +435,121 @@ pub fn all_mutants(p: &Program) -> Vec<Mutant> {
         }
         _ => None,
     });
+    // 17 a constructor of a *different* data type whose parameter count matches the expected type's
+    // type arguments (so that "name + printed type arguments" coincide); the other type's instance
+    // at those arguments is made to exist by a helper definition mentioning it
+    {
+        let other_nullary = |t: &str, n: usize| -> Option<(String, String)> {
+            p.types
+                .iter()
+                .filter(|d| !d.codata && d.name != t && d.params.len() == n)
+                .find_map(|d| d.xtors.iter().find(|x| x.args.is_empty()).map(|x| (d.name.clone(), x.name.clone())))
+        };
+        let is_data = |n: &str| p.type_decl(n).map_or(false, |d| !d.codata);
+        let insts = std::cell::RefCell::new(Vec::<(String, Vec<Ty>)>::new());
+        let mut tmp = vec![];
+        term_mutants(p, "17-constructor-of-other-type", &mut tmp, &|t| match t {
+            Tm::Let { var, ty: Ty::Named(n, ta), lazy, bound, body } if is_data(n) => {
+                let mut inner: &Tm = bound;
+                while let Tm::Paren(i) = inner {
+                    inner = i;
+                }
+                if !matches!(inner, Tm::Ctor { .. }) {
+                    return None;
+                }
+                let (ot, ok) = other_nullary(n, ta.len())?;
+                insts.borrow_mut().push((ot.clone(), ta.clone()));
+                Some((
+                    Tm::Let {
+                        var: var.clone(),
+                        ty: Ty::Named(n.clone(), ta.clone()),
+                        lazy: *lazy,
+                        bound: Box::new(Tm::Ctor { name: ok.clone(), args: vec![] }),
+                        body: body.clone(),
+                    },
+                    format!("binding of type {n} bound to constructor {ok} of type {ot}"),
+                ))
+            }
+            Tm::Call { .. } => {
+                let ps = param_types(p, t)?;
+                let a = args_of(t)?;
+                let (i, n, ta, ot, ok) = ps.iter().enumerate().find_map(|(i, q)| match &q.ty {
+                    Ty::Named(n, ta) if !q.cns && is_data(n) && i < a.len() => {
+                        other_nullary(n, ta.len()).map(|(ot, ok)| (i, n.clone(), ta.clone(), ot, ok))
+                    }
+                    _ => None,
+                })?;
+                let mut b = a.clone();
+                b[i] = Arg::Tm { t: Tm::Ctor { name: ok.clone(), args: vec![] }, lazy: false };
+                insts.borrow_mut().push((ot.clone(), ta));
+                Some((with_args(t, b), format!("argument {i} of type {n} replaced by constructor {ok} of type {ot}")))
+            }
+            _ => None,
+        });
+        let mut insts = insts.into_inner();
+        // definition bodies
+        for (di, d) in p.defs.iter().enumerate() {
+            if tmp.len() >= 2 * PER_CLASS {
+                break;
+            }
+            let mut inner: &Tm = &d.body;
+            while let Tm::Paren(i) = inner {
+                inner = i;
+            }
+            if let (Ty::Named(n, ta), Tm::Ctor { .. }) = (&d.ret, inner) {
+                if !is_data(n) {
+                    continue;
+                }
+                if let Some((ot, ok)) = other_nullary(n, ta.len()) {
+                    let mut q = p.clone();
+                    q.defs[di].body = Tm::Ctor { name: ok.clone(), args: vec![] };
+                    tmp.push(Mutant {
+                        class: "17-constructor-of-other-type",
+                        what: format!("body of {} (type {n}) replaced by constructor {ok} of type {ot}", d.name),
+                        prog: q,
+                    });
+                    insts.push((ot, ta.clone()));
+                }
+            }
+        }
+        for (k, (mut m, (ot, ta))) in tmp.into_iter().zip(insts).enumerate() {
+            let idx = m.prog.defs.len();
+            m.prog.defs.push(Def {
+                name: format!("zz_inst{k}"),
+                params: vec![Param { name: "p".into(), cns: false, ty: Ty::Named(ot, ta) }],
+                ret: Ty::I64,
+                body: Tm::Lit(0),
+            });
+            if !m.prog.order.is_empty() {
+                m.prog.order.push(Decl::Def(idx));
+            }
+            out.push(m);
+        }
+    }
+    // 18 a destructor of a different codata type with the same number of type parameters
+    term_mutants(p, "18-destructor-of-other-type", &mut out, &|t| match t {
+        Tm::Dtor { scrut, name, tyargs, .. } => {
+            // only scrutinees with a definite type (a jump or exit would fit any type)
+            let mut inner: &Tm = scrut;
+            while let Tm::Paren(i) = inner {
+                inner = i;
+            }
+            if !matches!(inner, Tm::Var(_) | Tm::Call { .. } | Tm::Dtor { .. } | Tm::New { .. }) {
+                return None;
+            }
+            let (own, _) = p.find_xtor(name)?;
+            let own = own.name.clone();
+            let (ot, od) = p
+                .types
+                .iter()
+                .filter(|d| d.codata && d.name != own && d.params.len() == tyargs.len())
+                .find_map(|d| d.xtors.iter().find(|x| x.args.is_empty()).map(|x| (d.name.clone(), x.name.clone())))?;
+            Some((
+                Tm::Dtor { scrut: scrut.clone(), name: od.clone(), tyargs: tyargs.clone(), args: vec![] },
+                format!("destructor {name} of {own} replaced by {od} of {ot}"),
+            ))
+        }
+        _ => None,
+    });
     out
 }
